@@ -464,6 +464,12 @@ def near_miss(d, ch, depth=0):
     cands += ['x']
     if t == 'int':
       cands.append(1.5)
+    else:
+      # an int enters a Float field through the int -> float converter: the range still applies to it
+      if d.get('min') is not None:
+        cands.append(int(d['min']) - 1)
+      if d.get('max') is not None:
+        cands.append(int(d['max']) + 1)
   elif t == 'str':
     cands += [1, 2.5]
   elif t == 'enum':
